@@ -310,12 +310,18 @@ func readMergedReports(ctx context.Context, fileName string, s *storage.API) ([]
 
 	var reports []telemetry.Report
 	scanner := bufio.NewScanner(in)
+	// A merged line is one uploaded report, which may be larger than
+	// bufio.Scanner's default 64 KiB token limit.
+	scanner.Buffer(make([]byte, 0, 64*1024), 16*1024*1024)
 	for scanner.Scan() {
 		var report telemetry.Report
 		if err := json.Unmarshal(scanner.Bytes(), &report); err != nil {
 			return nil, err
 		}
 		reports = append(reports, report)
+	}
+	if err := scanner.Err(); err != nil {
+		return nil, fmt.Errorf("reading merged reports %s: %v", fileName, err)
 	}
 
 	return reports, nil
